@@ -6,7 +6,7 @@ the line protocol is stateless.
 import GT.Base.JsonQ
 import GT.Model.Rep
 import GT.Lemmas.Rep
-open Lean GT.J GT
+open Lean GT.J GT GT.RepW
 namespace GT.Driver.C05
 
 /-- ring-specific I/O and the instantiation of the `utils.invert` contract -/
